@@ -460,3 +460,58 @@ func MergeRuns(rs []Run) []Run {
 
 // AttrKey exposes the canonical attribute encoding.
 func AttrKey(a map[string]string) string { return attrKey(a) }
+
+// Canon renders a model as a canonical string: text as merged styled runs,
+// trees as XML, objects with sorted keys. Two documents with the same visible
+// content have the same Canon whatever their internal chunking.
+func Canon(n *Node) string {
+	var sb strings.Builder
+	canon(n, &sb)
+	return sb.String()
+}
+
+func canon(n *Node, sb *strings.Builder) {
+	switch n.Kind {
+	case "obj":
+		keys := make([]string, 0, len(n.Obj))
+		for k := range n.Obj {
+			keys = append(keys, k)
+		}
+		sort.Strings(keys)
+		sb.WriteString("{")
+		for i, k := range keys {
+			if i > 0 {
+				sb.WriteString(",")
+			}
+			fmt.Fprintf(sb, "%q:", k)
+			canon(n.Obj[k], sb)
+		}
+		sb.WriteString("}")
+	case "arr":
+		sb.WriteString("[")
+		for i, c := range n.Arr {
+			if i > 0 {
+				sb.WriteString(",")
+			}
+			canon(c, sb)
+		}
+		sb.WriteString("]")
+	case "prim":
+		sb.WriteString(n.Prim)
+	case "cnt":
+		t := "int"
+		if n.Long {
+			t = "long"
+		}
+		if n.Dedup {
+			t = "dedup"
+		}
+		fmt.Fprintf(sb, "counter(%s,%d)", t, n.Cnt)
+	case "txt":
+		fmt.Fprintf(sb, "text%v", MergeRuns(n.Runs()))
+	case "tree":
+		sb.WriteString("tree:" + n.Tree.XML())
+	default:
+		sb.WriteString("?")
+	}
+}
